@@ -85,6 +85,9 @@ namespace {
    {
       using namespace zoo;
       current = "zoo rotation " + std::to_string(rot);
+      // heap-address personality (the sanitizer build keeps malloc, so that its heap checks stay in force)
+      if (not asan) vf::env::set_alloc(vf::env::Alloc(rot % 4));
+      struct Reset { ~Reset() { vf::env::set_alloc(vf::env::Alloc::Malloc); vf::env::arena_reset(); } } reset;
       ipr::impl::Lexicon lex;
       ipr::impl::Translation_unit unit{ lex };
       Ctx c{ lex, unit };
@@ -540,6 +543,7 @@ int main(int argc, char** argv)
 {
    opt = vf::parse_options(argc, argv);
    vf::install_crash_handler(opt, "C05");
+   (void) zoo::rows();            // built once, with the default allocator, before any address personality is selected
    vf::crash_describe = describe_current;
    for (auto& a : opt.extra) if (a == "--asan") asan = true;
    verbose = not opt.replay.empty();
